@@ -504,6 +504,8 @@ def info(case):
         classes.append("unknown-component")
     if case.get("perturb"):
         classes.append("perturb:" + case["perturb"]["kind"])
+    if any(len(n["s"]) > 16 and any(len(k["s"]) >= 2 for k in n["s"]) for n in ns):
+        classes.append("more-than-16-siblings-with-children")
     if any(p[1]["k"] == "zoned" or (p[1]["k"] == "dates" and p[1]["v"][0]["k"] == "zoned") for n in ns for p in n["p"]):
         classes.append("zoned-value")
     return {"nontrivial": len(ns) >= 3 and rep, "classes": classes}
@@ -593,6 +595,26 @@ def _hyp(depth, fanout=4):
     return mk
 
 
+@st.composite
+def _many_siblings(draw):
+    """a parent with many children (around and beyond every plausible batch size), the children having children of their own in an
+    order that the permuted twin changes"""
+    import copy
+    n = draw(st.sampled_from([8, 15, 16, 17, 18, 31, 32, 33, 50, 64, 65, 100, 129]))
+    templates = draw(st.lists(T.s_tree(1, 3, True, root="VEVENT").map(_no_tzid_in_vtimezone), min_size=1, max_size=4))
+    kids = []
+    for i in range(n):
+        k = copy.deepcopy(templates[i % len(templates)])
+        k["p"] = [p for p in k["p"] if p[0].upper() != "UID"] + [["UID", {"k": "text", "v": f"kid-{i // draw(st.sampled_from([1, 1, 2]))}"}]]
+        if len(k["s"]) < 2:
+            k["s"] = k["s"] + [{"c": "VALARM", "p": [["ACTION", {"k": "text", "v": "DISPLAY"}], ["DESCRIPTION", {"k": "text", "v": f"first {i}"}]], "s": []},
+                               {"c": "VALARM", "p": [["ACTION", {"k": "text", "v": "AUDIO"}]], "s": []}]
+        kids.append(k)
+    tree = {"c": "VCALENDAR", "p": [["PRODID", {"k": "text", "v": "-//verif//c20"}]], "s": kids}
+    return {"provider": draw(st.sampled_from(["zoneinfo", "pytz"])), "tree": tree, "perm": draw(st.lists(st.integers(0, 5), min_size=2, max_size=6)),
+            "perturb": {"kind": draw(st.sampled_from(["value", "zone", "add-sub", "remove-sub", "dup-sub", "swap-mult", "kind"])), "node": draw(st.integers(0, 300)), "idx": draw(st.integers(0, 10))}}
+
+
 def _aim_walls(case):
     """for the generated rule parts add a wall time in the period each of them affects (the summer of the excluded year, of a
     year the INTERVAL skips, of the first year after COUNT ran out)"""
@@ -621,7 +643,7 @@ def _custom_zone_cases():
 
 def streams(tier):
     n = 250 if tier == "quick" else 5000
-    return [Stream("custom-zone-copies", "hyp", n // 2, 4, _custom_zone_cases), Stream("trees-wide", "hyp", n // 2, 4, _hyp(1, 12)), Stream("trees-shallow", "hyp", n, 8, _hyp(2)), Stream("trees-deep", "hyp", n, 8, _hyp(4 if tier == "quick" else 6))]
+    return [Stream("custom-zone-copies", "hyp", n // 2, 4, _custom_zone_cases), Stream("trees-wide", "hyp", n // 2, 4, _hyp(1, 12)), Stream("many-siblings-with-children", "hyp", max(10, n // 20), 8, _many_siblings), Stream("trees-shallow", "hyp", n, 8, _hyp(2)), Stream("trees-deep", "hyp", n, 8, _hyp(4 if tier == "quick" else 6))]
 
 
 LEVEL_TEXT = ("Random trees are built through the API; traversal is compared with the construction order, and equality with a set of "
